@@ -30,13 +30,13 @@ Theorem C18_classic_s2c_sent : forall text s c,
 Proof. exact publish_classic_out. Qed.
 
 (* ... and LibVNCClient hands the wire form of that message to GotXCutText unchanged *)
-Theorem C18_classic_s2c_received : forall zinflate zcompress l t,
+Theorem C18_classic_s2c_received : forall zinflate zcompress xl l t,
   Z.of_nat (length t) <= c18_lvc_cut_limit ->
-  lvc_recv zinflate l (enc_out zcompress (OClassic t)) = (l, [GotCut t], true).
+  lvc_recv zinflate xl l (enc_out zcompress (OClassic t)) = (l, [GotCut t], true).
 Proof. exact lvc_recv_classic. Qed.
 
 Example C18_classic_nonvacuous :
-  lvc_recv (fun _ => ([], ZErr)) (mkLvc 0 false) (enc_out (fun x => x) (OClassic [0; 255; 0; 65]))
+  lvc_recv (fun _ => ([], ZErr)) false (mkLvc 0 false) (enc_out (fun x => x) (OClassic [0; 255; 0; 65]))
   = (mkLvc 0 false, [GotCut [0; 255; 0; 65]], true).
 Proof. vm_compute. reflexivity. Qed.
 
@@ -75,12 +75,12 @@ Theorem C18_ext_s2c_sent : forall fl text fb c,
   k_data (c_clip c') = Some (text ++ [0]) /\ k_locked (c_clip c') = k_locked (c_clip c).
 Proof. exact pub_utf8_ext. Qed.
 
-Theorem C18_ext_s2c_received : forall zinflate zcompress l data,
+Theorem C18_ext_s2c_received : forall zinflate zcompress xl l data,
   l_utf8 l = true ->
   zinflate (zcompress (be32 (Z.of_nat (length data)) ++ data)) = (be32 (Z.of_nat (length data)) ++ data, ZEnd) ->
   0 < Z.of_nat (length data) <= c18_lvc_ext_size_limit ->
   4 + Z.of_nat (length (zcompress (be32 (Z.of_nat (length data)) ++ data))) <= c18_lvc_cut_limit ->
-  lvc_recv zinflate l (enc_out zcompress (OProvide (be32 (Z.of_nat (length data)) ++ data)))
+  lvc_recv zinflate xl l (enc_out zcompress (OProvide (be32 (Z.of_nat (length data)) ++ data)))
   = (l, [GotCutUTF8 data 0], true).
 Proof. exact lvc_recv_provide. Qed.
 
@@ -88,7 +88,7 @@ Example C18_ext_nonvacuous :
   (* a toy "zlib" (identity coding) satisfies the oracle hypotheses: the theorems are not empty *)
   let zi (z : list Z) := (z, ZEnd) in
   let data := [104; 105; 0] in
-  lvc_recv zi (mkLvc 1 true) (enc_out (fun x => x) (OProvide (be32 3 ++ data))) = (mkLvc 1 true, [GotCutUTF8 data 0], true) /\
+  lvc_recv zi false (mkLvc 1 true) (enc_out (fun x => x) (OProvide (be32 3 ++ data))) = (mkLvc 1 true, [GotCutUTF8 data 0], true) /\
   ext_cut_real zi true false clip0 (be32 (c18_Provide + c18_Text) ++ be32 3 ++ data) = (clip0, [U8 data 0], false).
 Proof. vm_compute. split; reflexivity. Qed.
 
@@ -102,8 +102,8 @@ Theorem C18_caps_exchange_no_callback : forall cfg encs k,
   g_utf8cb cfg = false -> apply_encodings cfg k encs = k.
 Proof. exact apply_encodings_off. Qed.
 
-Theorem C18_caps_exchange_client : forall zinflate zcompress l, l_utf8 l = true ->
-  exists l', lvc_recv zinflate l (enc_out zcompress OCaps) = (l', [], true) /\ l_caps l' <> 0 /\ l_utf8 l' = true.
+Theorem C18_caps_exchange_client : forall zinflate zcompress xl l, l_utf8 l = true ->
+  exists l', lvc_recv zinflate xl l (enc_out zcompress OCaps) = (l', [], true) /\ l_caps l' <> 0 /\ l_utf8 l' = true.
 Proof. exact lvc_recv_caps. Qed.
 
 Theorem C18_caps_from_client : forall zinflate fs vo k flags p m,
@@ -117,6 +117,28 @@ Theorem C18_caps_without_text_disables : forall zinflate fs vo k flags p,
   Z.of_nat (length p) = 4 + popcount16 flags * 4 ->
   k_ext (fst (fst (ext_cut_real zinflate fs vo k p))) = false /\ snd (ext_cut_real zinflate fs vo k p) = false.
 Proof. exact ext_caps_no_text. Qed.
+
+(* a later SetEncodings WITHOUT the pseudo-encoding switches the extension off again (2d15d75),
+   silently; with it the extension is (re-)enabled and the capabilities are sent again *)
+Theorem C18_caps_withdrawn : forall ext_cut cfg o c encs,
+  fix_extreset cfg = true -> ~ In c06_rfbEncodingExtendedClipboard encs ->
+  let a := apply_normal ext_cut cfg o c (MSetEncodings encs) in
+  k_ext (c_clip (a_client a)) = false /\ k_out (c_clip (a_client a)) = k_out (c_clip c) /\
+  a_events a = [] /\ c_closed (a_client a) = c_closed c.
+Proof. exact setenc_resets. Qed.
+
+Theorem C18_caps_renewed : forall ext_cut cfg o c encs,
+  g_utf8cb cfg = true -> In c06_rfbEncodingExtendedClipboard encs ->
+  let a := apply_normal ext_cut cfg o c (MSetEncodings encs) in
+  k_ext (c_clip (a_client a)) = true /\ In OCaps (k_out (c_clip (a_client a))).
+Proof. exact setenc_enables. Qed.
+
+(* regression witness: the former code (variant bit 4) kept the capability *)
+Theorem C18_caps_withdrawn_legacy_witness : forall ext_cut cfg o c encs,
+  fix_extreset cfg = false -> ~ In c06_rfbEncodingExtendedClipboard encs ->
+  let a := apply_normal ext_cut cfg o c (MSetEncodings encs) in
+  k_ext (c_clip (a_client a)) = k_ext (c_clip c).
+Proof. exact setenc_legacy_keeps. Qed.
 
 (* ---- request / provide, peek / notify -------------------------------------------------- *)
 Theorem C18_request_provide : forall zinflate fs vo k d,
@@ -142,20 +164,24 @@ Theorem C18_fallback_latin1 : forall fl text f c,
   k_out (c_clip c') = k_out (c_clip c) ++ [OClassic f] /\ k_locked (c_clip c') = k_locked (c_clip c).
 Proof. exact pub_utf8_fallback. Qed.
 
-(* full statement of "nothing else happens to a client that gets no message" (does not hold):
-     forall text c, k_ext (c_clip c) = false -> pub_utf8_client text None c = c
-   refuted: without a fallback text the send mutex of a classic client is locked and never
-   released (the next use of that mutex - even rfbClientConnectionGone - blocks for ever) *)
-Theorem C18_fallback_null_refuted : forall text c,
+(* no fallback text: a client without the extension gets nothing and NOTHING else happens to it
+   (the code as it is: the send mutex is released, 3fe86ea) *)
+Theorem C18_fallback_null : forall text c,
+  k_ext (c_clip c) = false -> pub_utf8_client true text None c = c.
+Proof. exact pub_utf8_null_fallback_fixed. Qed.
+
+Example C18_fallback_null_nonvacuous :
+  let cfg := mkCfg 100 80 false 0 false false false 0 true 0 in
+  fix_lock cfg = true /\
+  publish_utf8 [65] None (mkSrv cfg [new_client cfg 3 false] None 0) = mkSrv cfg [new_client cfg 3 false] None 0.
+Proof. vm_compute. split; reflexivity. Qed.
+
+(* regression witness: the former code (variant bit 2) left the send mutex of such a client locked *)
+Theorem C18_fallback_null_legacy_witness : forall text c,
   c_closed c = false -> k_ext (c_clip c) = false ->
   let c' := pub_utf8_client false text None c in
   k_locked (c_clip c') = true /\ k_out (c_clip c') = k_out (c_clip c).
 Proof. exact pub_utf8_null_fallback_locks. Qed.
-
-(* against a library with the repair notes/fix_C18_1.diff the full statement holds *)
-Theorem C18_fallback_null_repaired : forall text c,
-  k_ext (c_clip c) = false -> pub_utf8_client true text None c = c.
-Proof. exact pub_utf8_null_fallback_fixed. Qed.
 
 (* ---- limits, malformed messages ---------------------------------------------------------- *)
 Theorem C18_limits_short_payload : forall zinflate fs vo k p,
@@ -173,34 +199,38 @@ Theorem C18_limits_corrupt_zlib : forall zinflate fs k z,
   ext_cut_real zinflate fs false k (be32 (c18_Provide + c18_Text) ++ z) = (k, [], true).
 Proof. exact ext_provide_corrupt. Qed.
 
-Theorem C18_limits_negative_length : forall i len0 r,
-  two31 <= len0 < two32 -> c06_cut_text_limit < neg32 len0 ->
+Theorem C18_limits_negative_length : forall (xl : bool) i len0 r,
+  two31 <= len0 < two32 -> c06_cut_text_limit + (if xl then c06_ext_slack else 0) < neg32 len0 ->
   st_bytes i = cut_hdr len0 ++ r ->
-  parse_normal true i = RFail PTooBig.
+  parse_normal true xl i = RFail PTooBig.
 Proof. exact parse_cut_ext_too_big. Qed.
 
 Example C18_limits_negative_length_nonvacuous :
-  parse_normal true (mkInp (cut_hdr two31 ++ [1; 2; 3]) false []) = RFail PTooBig /\
-  parse_normal true (mkInp (cut_hdr (neg32 (c06_cut_text_limit + 1))) false [Frag [9]]) = RFail PTooBig.
+  parse_normal true false (mkInp (cut_hdr two31 ++ [1; 2; 3]) false []) = RFail PTooBig /\
+  parse_normal true false (mkInp (cut_hdr (neg32 (c06_cut_text_limit + 1))) false [Frag [9]]) = RFail PTooBig.
 Proof. vm_compute. split; reflexivity. Qed.
 
-(* full statement of "a malformed Provide closes the sender" (does not hold):
-     zinflate z = (be32 size ++ data, t) -> length data < size -> snd (ext_cut_real ...) = true
-   refuted: a size field larger than what the stream holds is accepted and the application is
-   handed [data] followed by size-|data| bytes of never-written heap memory *)
-Theorem C18_limits_short_stream_refuted : forall zinflate fs k z size data t, fs = false ->
+(* a size field larger than what the stream holds is refused like every other malformed stream:
+   the sender is closed, nothing is delivered (the code as it is, 260e10a) *)
+Theorem C18_limits_short_stream : forall zinflate fs k z size data t, fs = true ->
+  zinflate z = (be32 size ++ data, t) -> t = ZEnd \/ t = ZMore -> data <> [] ->
+  Z.of_nat (length data) < size <= c18_ext_size_limit ->
+  ext_cut_real zinflate fs false k (be32 (c18_Provide + c18_Text) ++ z) = (k, [], true).
+Proof. exact ext_provide_short_stream_fixed. Qed.
+
+Example C18_limits_short_stream_nonvacuous :
+  ext_cut_real (fun z => (z, ZEnd)) true false clip0 (be32 (c18_Provide + c18_Text) ++ be32 100 ++ [1; 2; 3])
+  = (clip0, [], true).
+Proof. vm_compute. reflexivity. Qed.
+
+(* regression witness: the former code (variant bit 3) handed the application [data] followed by
+   size-|data| bytes of never-written heap memory *)
+Theorem C18_limits_short_stream_legacy_witness : forall zinflate fs k z size data t, fs = false ->
   zinflate z = (be32 size ++ data, t) -> t = ZEnd \/ t = ZMore -> data <> [] ->
   Z.of_nat (length data) < size <= c18_ext_size_limit ->
   ext_cut_real zinflate fs false k (be32 (c18_Provide + c18_Text) ++ z)
   = (k, [U8 data (size - Z.of_nat (length data))], false).
 Proof. exact ext_provide_short_stream. Qed.
-
-(* against a library with the repair notes/fix_C18_2.diff the full statement holds *)
-Theorem C18_limits_short_stream_repaired : forall zinflate fs k z size data t, fs = true ->
-  zinflate z = (be32 size ++ data, t) -> t = ZEnd \/ t = ZMore -> data <> [] ->
-  Z.of_nat (length data) < size <= c18_ext_size_limit ->
-  ext_cut_real zinflate fs false k (be32 (c18_Provide + c18_Text) ++ z) = (k, [], true).
-Proof. exact ext_provide_short_stream_fixed. Qed.
 
 (* ---- view-only ---------------------------------------------------------------------- *)
 Theorem C18_viewonly_no_delivery_ext : forall zinflate fs k p,
@@ -219,3 +249,13 @@ Proof. intros zinflate fs. exact (handle_gate (ext_cut_real zinflate fs) (ext_ga
 (* constants the model starts from are those of rfbNewClient *)
 Theorem C18_initial_state : clip0 = mkClip false c18_default_usercap c18_default_maxunsol None [] false.
 Proof. exact clip0_defaults. Qed.
+
+(* ---- proposed repair notes/fix_C18_3.diff (variant bit 5, not in the library yet) -------
+   with 1 KiB of slack an extended message of up to 2^20 + 1024 bytes is read whole instead of
+   closing the connection: a 1 MiB text that zlib cannot shrink then reaches the record-level
+   checks (size <= 2^20) and the application like any other text *)
+Theorem C18_ext_limit_proposed : forall i payload r,
+  0 < Z.of_nat (length payload) <= c06_cut_text_limit + c06_ext_slack ->
+  st_bytes i = cut_hdr (neg32 (Z.of_nat (length payload))) ++ payload ++ r ->
+  exists j, parse_normal true true i = ROk (MCutExt payload) j /\ st_bytes j = r /\ st_eof j = st_eof i.
+Proof. exact parse_cut_ext_slack. Qed.
